@@ -265,6 +265,16 @@ CLAIMED = {
              "rows are still in the element table and drops them afterwards (ghost table versions).",
         note="Assumed: pandas Index.difference / intersection are set operations. Not decided: attach_to_group(s), group_element_index, "
              "in/out-of-service and result functions, reindexing of group members, create_group."),
+    "C11": dict(
+        text="Proof of lemmas on the real symmetrical-component code of pandapower.auxiliary (constants a, asq, Tabc, T012, "
+             "sequence_to_phase, phase_to_sequence, S_from_VI_elementwise) for 3 x n arrays with arbitrary complex columns: the two "
+             "transformations are inverse to each other; a purely positive-sequence solution gives phase quantities of equal "
+             "magnitude shifted by -120 / +120 degrees and equal per-phase powers (one third of the total each); for any solution "
+             "the phase powers add up to 3 * sum of the sequence powers. The agreement of runpp_3ph with runpp on a symmetric network "
+             "is only a bounded stand-in (one native run), labelled bounded.",
+        note="Assumed: cos(120 deg) = -1/2, sin(120 deg) = sqrt(3)/2 for the module constants; np.matmul. Not decided: the sequence "
+             "iteration of runpp_3ph, the zero-sequence network build, per-phase nodal balance, the *_3ph result functions beyond the "
+             "transformation, that a symmetric network has no zero / negative sequence components."),
 }
 
 NOT_APPLICABLE = {
